@@ -11,9 +11,10 @@
 -/
 import DulwichModel.Model.Missing
 import DulwichModel.Model.Negotiate
+import DulwichModel.Model.Shallow
 import Driver.Util
 namespace DriverC05
-open Dulwich Dulwich.Graph Dulwich.Missing Dulwich.Negotiate DriverUtil
+open Dulwich Dulwich.Graph Dulwich.Missing Dulwich.Negotiate Dulwich.Shallow DriverUtil
 
 def ids? (s : String) : Option (List Nat) :=
   if s = "-" || s = "" then some [] else (s.splitOn ",").mapM nat?
@@ -46,6 +47,10 @@ structure Case where
   stateless : Bool := false
   noDone : Bool := false
   lines : List CLine := []
+  depth : Option Nat := none
+  v2 : Bool := false
+  since : Bool := false
+  exclude : Bool := false
 
 def cline? (s : String) : Option CLine :=
   if s = "f" then some .flush
@@ -83,6 +88,12 @@ def tok (c : Case) (t : String) : Option Case :=
   | 'L' => do some { c with stateless := ← bool? (body.drop 1).toString }
   | 'N' => do some { c with noDone := ← bool? (body.drop 1).toString }
   | 'Q' => do some { c with lines := ← clines? (body.drop 1).toString }
+  | 'D' => let v := (body.drop 1).toString
+           if v = "-" then some { c with depth := none } else do some { c with depth := some (← nat? v) }
+  | 'V' => do some { c with v2 := (← nat? (body.drop 1).toString) == 2 }
+  | 'E' => match (body.drop 1).toString.toList with
+    | [a, b] => some { c with since := a == '1', exclude := b == '1' }
+    | _ => none
   | _ => none
 
 def parse (args : List String) : Option Case :=
@@ -141,6 +152,16 @@ def runNego (c : Case) : String :=
     s!"ok haves={showOrdered r.haves} out={showSLines r.out} done={showBool r.doneReceived} " ++
     s!"pack={showBool (sendsPack c.mode r c.noDone)} final={showSLines (finalLines c.mode r c.noDone)}"
 
+def showReq : ReqLine → String
+  | .want x => s!"W{x}" | .shallow x => s!"S{x}" | .deepen n => s!"D{n}" | .deepenSince => "DS"
+  | .deepenNot => "DN" | .flush => "F" | .done => "X"
+
+def runShallowAns (c : Case) : String :=
+  match shallowAnswer (storeOf c.objs) (fuelFor c + 4 * c.objs.length * c.objs.length) c.wants c.shallow
+      (c.depth.getD 0) with
+  | .error e => "err " ++ toString e
+  | .ok a => s!"ok new={showIds a.newShallow} un={showIds a.unshallow} boundary={showIds a.boundary}"
+
 def handle (op : String) (args : List String) : Option String :=
   match op with
   | "c05.mof" => some <| match parse args with
@@ -160,6 +181,12 @@ def handle (op : String) (args : List String) : Option String :=
   | "c05.nego" => some <| match parse args with
     | none => "bad-arg"
     | some c => runNego c
+  | "c05.request" => some <| match parse args with
+    | none => "bad-arg"
+    | some c => " ".intercalate ((mkRequest { shallow := c.shallow } c.wants c.depth c.since c.exclude c.v2).map showReq)
+  | "c05.shallowans" => some <| match parse args with
+    | none => "bad-arg"
+    | some c => runShallowAns c
   | "c05.kind" => some <| match args with
     | [m] => (match nat? m with
       | some m => (match kindOfMode m with | .file => "file" | .dir => "dir" | .gitlink => "gitlink")
